@@ -98,6 +98,8 @@ bool ecdsa_verify(const Pt &pub, const uint8_t msg32[32], const uint8_t r32[32],
 bool ecdsa_recover(const uint8_t msg32[32], const uint8_t r32[32], const uint8_t s32[32], int recid, Pt *out);
 // RFC 6979 as used by the library: HMAC-DRBG over key || (msg mod n) || [data32] || [algo16]; counter-th output
 void rfc6979_nonce(const uint8_t key32[32], const uint8_t msg32[32], const uint8_t *data32, const uint8_t *algo16, unsigned counter, uint8_t out[32]);
+// one signing attempt with an explicit nonce k (32 bytes): false if k invalid, r == 0 or s == 0 (the caller retries)
+bool ecdsa_sign_nonce(const U256 &d, const uint8_t msg32[32], const uint8_t k32[32], uint8_t r32[32], uint8_t s32[32], int *recid);
 // full deterministic ECDSA signing per the library (default nonce function): returns false if key invalid
 bool ecdsa_sign_rfc6979(const uint8_t key32[32], const uint8_t msg32[32], const uint8_t *data32, uint8_t r32[32], uint8_t s32[32], int *recid);
 
